@@ -7,7 +7,7 @@ keyword route (`construct` = `Cls(*args, **kwargs)`), the characterisation of a 
 The static half (every declared group is in force, names existing optional non-repeated children)
 is the generated obligation `Gen.schema_wf_except_known`.
 -/
-import OfxProofs.Lemmas.AggRound
+import OfxProofs.Lemmas.NodeRT
 namespace Ofx.Agg
 open Ofx
 
